@@ -6,7 +6,7 @@ import random
 from . import common as C
 from . import gen, solverlib
 
-GAMMAS = [[1, 4], [1, 2], [3, 4], [1, 1]]
+GAMMAS = [[1, 4], [1, 2], [3, 4], [1, 1], [0, 1]]
 
 
 def jobs_for(tier, rng):
@@ -53,7 +53,7 @@ def run(tier):
             rep.sample(solverlib.sample_of(j, t))
     gstates = sum(t["m"]["ns"] for t in traces if "m" in t)
     rep.extra["state_backups_checked"] = gstates
-    rep.extra["blocked"] = "gamma = 0 cannot construct a solver on the unfixed tree (C20); covered once repaired"
+
     rep.assumptions = ["dyadic MDP families only (float64 arithmetic exact); <= ~120 states, <= 3 actions, <= 3 events",
                        "values injected through the documented `values` attribute",
                        "single host device here; layouts across devices are C03"]
